@@ -40,6 +40,8 @@ pub struct Sys {
     pub cond: f64,
     pub ainv_norm: f64,
     pub lip: f64,
+    /// common factor of all equations (and of the Jacobian): the roots and the Newton iterates do not depend on it
+    pub fscale: f64,
 }
 
 impl Sys {
@@ -51,7 +53,7 @@ impl Sys {
                 for j in 0..n {
                     s += self.a[i * n + j] * x[j];
                 }
-                out[i] = s - b[i];
+                out[i] = (s - b[i]) * self.fscale;
             }
             return;
         }
@@ -74,7 +76,7 @@ impl Sys {
                 }
                 s += self.eps * qv;
             }
-            out[i] = s;
+            out[i] = s * self.fscale;
         }
     }
     /// analytic Jacobian, row-major
@@ -82,6 +84,9 @@ impl Sys {
         let n = self.n;
         out[..n * n].copy_from_slice(&self.a);
         if self.b.is_some() || self.eps == 0.0 {
+            for v in out[..n * n].iter_mut() {
+                *v *= self.fscale;
+            }
             return;
         }
         let mut d = [0.0; 4];
@@ -98,10 +103,13 @@ impl Sys {
                 out[i * n + j] += self.eps * 3.0 * self.cub[i * n + j] * d[j] * d[j];
             }
         }
+        for v in out[..n * n].iter_mut() {
+            *v *= self.fscale;
+        }
     }
     fn to_json(&self) -> J {
         let n = self.n;
-        let mut j = J::obj().set("dim", n).set("A_rows", J::Arr((0..n).map(|i| J::fs(&self.a[i * n..(i + 1) * n])).collect()));
+        let mut j = J::obj().set("dim", n).set("common_factor_of_the_equations", self.fscale).set("A_rows", J::Arr((0..n).map(|i| J::fs(&self.a[i * n..(i + 1) * n])).collect()));
         if let Some(b) = &self.b {
             j.put("F", "A x - b");
             j.put("b", J::fs(b));
@@ -221,7 +229,7 @@ pub fn gen_sys(rng: &mut Rng, n: usize, affine: bool) -> Sys {
     }
     // Lipschitz bound of the Jacobian (Frobenius) on the unit ball around r
     let lip = eps * (hess2.sqrt() + 6.0 * cub2.sqrt());
-    Sys { n, a, r, b: None, eps, q, cub, cond, ainv_norm: 1.0 / smin, lip }
+    Sys { n, a, r, b: None, eps, q, cub, cond, ainv_norm: 1.0 / smin, lip, fscale: 1.0 }
 }
 
 /// exactly singular integer matrix with an inconsistent right-hand side
@@ -260,7 +268,7 @@ pub fn gen_singular(rng: &mut Rng, n: usize) -> Sys {
             }
         }
     }
-    Sys { n, a, r: vec![0.0; n], b: Some(b), eps: 0.0, q: vec![], cub: vec![], cond: f64::INFINITY, ainv_norm: f64::INFINITY, lip: 0.0 }
+    Sys { n, a, r: vec![0.0; n], b: Some(b), eps: 0.0, q: vec![], cub: vec![], cond: f64::INFINITY, ainv_norm: f64::INFINITY, lip: 0.0, fscale: 1.0 }
 }
 
 #[derive(Clone, Copy, Debug, PartialEq)]
@@ -499,7 +507,16 @@ fn regular_case(rng: &mut Rng, rep: &mut Report) {
         if affine {
             rep.count(&format!("{}/affine_runs", method.name()), 1);
         }
+        // Newton, one run in eight: every equation multiplied by 2^+-(200..500) (1e60 ... 1e150 and their
+        // reciprocals): neither the roots nor the Newton iterates depend on a common factor, the LU solve does
+        // not mind it - a determinant does
+        if which == 0 && (start[0].to_bits() >> 11) % 8 == 0 {
+            let k = 200 + ((start[0].to_bits() >> 15) % 301) as i32;
+            sys.fscale = 2f64.powi(if (start[0].to_bits() >> 14) % 2 == 0 { k } else { -k });
+            rep.count("newton/runs_with_equations_scaled_by_1e60_to_1e150", 1);
+        }
         run_system(rep, &Run { sys: &sys, start, method, tol, n_max, expect: Expect::Root, start_kind });
+        sys.fscale = 1.0;
         // (the far root is for this Newton run only: the secant run that follows keeps the usual distances)
         if let Some(r0) = near_r {
             sys.r = r0;
@@ -546,6 +563,7 @@ fn singular_anchor_case(rep: &mut Report, i: u64) {
             q: vec![],
             cub: vec![],
             cond: f64::INFINITY,
+            fscale: 1.0,
             ainv_norm: f64::INFINITY,
             lip: 0.0,
         };
@@ -584,7 +602,7 @@ fn err_case(rng: &mut Rng, rep: &mut Report, i: u64) {
 
 fn anchor_case(rep: &mut Report, i: u64) {
     // the affine system of the design round (root (1.5,-0.7)) from four starts, and a 1-d cubic
-    let sys = Sys { n: 2, a: vec![2.0, 1.0, -1.0, 3.0], r: vec![1.5, -0.7], b: None, eps: 0.0, q: vec![0.0; 8], cub: vec![0.0; 4], cond: 1.6, ainv_norm: 0.5, lip: 0.0 };
+    let sys = Sys { n: 2, a: vec![2.0, 1.0, -1.0, 3.0], r: vec![1.5, -0.7], b: None, eps: 0.0, q: vec![0.0; 8], cub: vec![0.0; 4], cond: 1.6, ainv_norm: 0.5, lip: 0.0, fscale: 1.0 };
     let starts: [(Vec<f64>, &'static str); 4] = [(vec![0.0, 0.0], "origin"), (vec![1.0, 1.0], "affine-far"), (vec![1.5, -0.7], "on-root"), (vec![10.0, -20.0], "affine-far")];
     let (start, kind) = starts[(i % 4) as usize].clone();
     let tol = [1e-4, 1e-8, 1e-10][((i / 4) % 3) as usize];
@@ -618,6 +636,7 @@ pub fn thresholds(ctx: &Ctx, rep: &Report) -> Vec<Threshold> {
         t.push(Threshold { what: format!("{}: regular starts judged", m), required: q(18_000.0, 450_000.0), observed: rep.counter(&format!("{}/regular/regular", m)) as f64 });
         t.push(Threshold { what: format!("{}: starts exactly on the root", m), required: q(2_000.0, 50_000.0), observed: rep.counter(&format!("{}/regular/on-root", m)) as f64 });
         if m == "newton" {
+            t.push(Threshold { what: "newton: runs whose equations carry a common factor of 1e+-60 ... 1e+-150".into(), required: q(4_000.0, 35_000.0), observed: rep.counter("newton/runs_with_equations_scaled_by_1e60_to_1e150") as f64 });
             t.push(Threshold { what: "newton: affine systems started at the origin with the root 500 or more away".into(), required: q(300.0, 7_000.0), observed: rep.counter("newton/affine_from_the_origin_with_a_far_root") as f64 });
         }
         t.push(Threshold { what: format!("{}: starts at the origin", m), required: q(4_000.0, 100_000.0), observed: rep.counter(&format!("{}/regular/origin", m)) as f64 });
